@@ -259,16 +259,25 @@ fn general_case(src: &mut Src, ctx: &mut Ctx) -> Result<(), String> {
     let mut ra = [[1.0f64, 0.0], [0.0, 1.0]];
     let mut rb = [0.0f64, 0.0];
     let mut desc = vec![];
+    // the same chain built from the library's own elementary transforms: translate ∘ rotate ∘ reflect per level
+    let mut te = Transform::identity();
     for _ in 0..depth {
         let angle = match src.weighted(&[3, 2, 2]) {
             0 => 0.25 * src.below(1440) as f64,
-            1 => src.below(3_600_000) as f64 / 10_000.0 - 180.0,
-            _ => *src.pick(&[0.0, 90.0, 180.0, 270.0, 360.0, -90.0, 45.0, 30.0, 450.0]),
+            1 => src.below(18_000_000) as f64 / 10_000.0 - 720.0, // [-720, 1080): angles are not confined to one turn
+            _ => *src.pick(&[0.0, 90.0, 180.0, 270.0, 360.0, -90.0, 45.0, 30.0, 450.0, -180.0, 540.0, -135.0, 480.0, 720.0, -360.0, -270.0, 630.0, 225.0]),
         };
         let refl = src.bool();
         let loc = (src.signed(100_000), src.signed(100_000));
         desc.push((angle, refl, loc));
         t = Transform::cascade(&t, &Transform::from_instance(&pt(loc), refl, Some(angle)));
+        let mut e = Transform::identity();
+        if refl {
+            e = Transform::cascade(&Transform::reflect_vert(), &e);
+        }
+        e = Transform::cascade(&Transform::rotate(angle), &e);
+        e = Transform::cascade(&Transform::translate(loc.0 as f64, loc.1 as f64), &e);
+        te = Transform::cascade(&te, &e);
         let (s, c) = (angle.to_radians().sin(), angle.to_radians().cos());
         let m = if refl { [[c, s], [s, -c]] } else { [[c, -s], [s, c]] };
         // (ra, rb) := (ra, rb) ∘ (m, loc)
@@ -289,6 +298,10 @@ fn general_case(src: &mut Src, ctx: &mut Ctx) -> Result<(), String> {
         let wy = ra[1][0] * p.0 as f64 + ra[1][1] * p.1 as f64 + rb[1];
         if (got.0 as f64 - wx).abs() > 0.5 + 1e-6 || (got.1 as f64 - wy).abs() > 0.5 + 1e-6 {
             return Err(format!("general-angle chain {:?}: point {:?} lands at {:?}, the real-arithmetic image is ({:.4},{:.4}) (tolerance 0.5)", desc, p, got, wx, wy));
+        }
+        let el = tp(pt(p).transform(&te));
+        if (el.0 as f64 - wx).abs() > 0.5 + 1e-6 || (el.1 as f64 - wy).abs() > 0.5 + 1e-6 {
+            return Err(format!("general-angle chain {:?}: translate∘rotate∘reflect built from the library's elementary transforms moves {:?} to {:?}, the real-arithmetic image is ({:.4},{:.4}) (tolerance 0.5)", desc, p, el, wx, wy));
         }
     }
     Ok(())
